@@ -4,8 +4,10 @@ use crate::util::Ctx;
 pub mod real;
 pub mod c03;
 pub mod c04;
+pub mod c11;
 pub mod c12;
 pub mod c16;
+pub mod c20;
 
 pub fn run(ctx: &mut Ctx) -> bool {
     match ctx.id.as_str() {
@@ -17,6 +19,10 @@ pub fn run(ctx: &mut Ctx) -> bool {
             ctx.rule = c04::RULE.into();
             c04::run(ctx)
         }
+        "C11" => {
+            ctx.rule = c11::RULE.into();
+            c11::run(ctx)
+        }
         "C12" => {
             ctx.rule = c12::RULE.into();
             c12::run(ctx)
@@ -24,6 +30,10 @@ pub fn run(ctx: &mut Ctx) -> bool {
         "C16" => {
             ctx.rule = c16::RULE.into();
             c16::run(ctx)
+        }
+        "C20" => {
+            ctx.rule = c20::RULE.into();
+            c20::run(ctx)
         }
         _ => return false,
     }
